@@ -1,7 +1,6 @@
 package gio
 
 import (
-	"fmt"
 	"io"
 
 	"github.com/goatcms/goatcore/app"
@@ -90,7 +89,7 @@ func (repeater *Repeater) ReadWord() (word string, err error) {
 		}
 		repeater.mode = inMode
 	}
-	if err2 = repeater.output.Printf(word); err2 != nil {
+	if err2 = repeater.output.Printf("%s", word); err2 != nil {
 		return "", err2
 	}
 	return word, err
@@ -110,7 +109,7 @@ func (repeater *Repeater) ReadLine() (line string, err error) {
 		}
 		repeater.mode = inMode
 	}
-	if err2 = repeater.output.Printf(line); err2 != nil {
+	if err2 = repeater.output.Printf("%s", line); err2 != nil {
 		return "", err2
 	}
 	return line, nil
@@ -125,7 +124,7 @@ func (repeater *Repeater) Printf(format string, a ...interface{}) (err error) {
 		}
 		repeater.mode = outMode
 	}
-	return repeater.output.Printf(fmt.Sprintf(format, a...))
+	return repeater.output.Printf(format, a...)
 }
 
 // Write data to output
@@ -148,7 +147,7 @@ func (repeater *Repeater) PrintErrf(format string, a ...interface{}) (err error)
 		}
 		repeater.mode = errMode
 	}
-	return repeater.err.Printf(fmt.Sprintf(format, a...))
+	return repeater.err.Printf(format, a...)
 }
 
 // WriteErr write data to error output
